@@ -578,7 +578,7 @@ def resolve_runtime_selected(
         return None  # all outputs — no narrowing
     if isinstance(select, str):
         sel: tuple[str, ...] = (select,)
-    elif isinstance(select, list):
+    elif isinstance(select, (list, tuple)):
         sel = tuple(select)
     else:
         # Unexpected type — treat as "no narrowing" rather than raising, since
